@@ -276,7 +276,7 @@ class SplineSystem(object):
             if self.dense:
                 ops += [['sample_size', 17 if pd < 3 else 7], ['sample_size', 20 if pd < 3 else 8], ['delta', 0.0625 if pd < 3 else 0.125]]
             else:
-                ops += [['sample_size', 3], ['sample_size', 4], ['delta', 0.5], ['delta', 0.34]]
+                ops += [['sample_size', 3], ['sample_size', 4], ['delta', 0.5], ['delta', 0.34], ['delta', 2.0 / 9.0]]
             for a in range(pd):
                 ops += [['insert_knot', a, 0.5], ['remove_knot', a, 0.5]]
             ops += [['refine', 0]]
